@@ -292,6 +292,8 @@ func checkC04(w *World, r *Report) {
 	checkWriteString(w, r)
 	checkVerbatim(w, r, tokenT, textKind)
 	checkTokenValuesNeverGrow(w, r)
+	checkNoTokenAliases(w, r)
+	checkParseAlwaysParses(w, r, "R04.8")
 }
 
 func onlyDebugRefs(v ssa.Value) bool {
@@ -625,4 +627,81 @@ func checkTokenValuesNeverGrow(w *World, r *Report) {
 		})
 	}
 	r.floor("stores into Token.Value", n, 3)
+}
+
+// checkNoTokenAliases — R04.7: the tokenizer does not rewrite one word into another.  Where the
+// value handed to AddToken is chosen among alternatives (a phi) and one alternative is a constant
+// K that is selected because the source text equalled a constant K', K' must be K (interning a
+// word as itself is the only substitution the tokenizer may make).  Mapping `raw` to `verbatim`
+// makes `{% endraw %}` written INSIDE a verbatim body close the block: the rest of the body is
+// evaluated.
+func checkNoTokenAliases(w *World, r *Report) {
+	addTok := w.method("ZeroAllocTokenizer", "AddToken")
+	n := 0
+	for _, fn := range w.pkgFuncs() {
+		instrsOf(fn, func(in ssa.Instruction) {
+			c, ok := in.(*ssa.Call)
+			if !ok || calleeFunc(c) != addTok {
+				return
+			}
+			args := callArgs(c)
+			if len(args) < 2 {
+				return
+			}
+			var visit func(v ssa.Value, seen map[ssa.Value]bool)
+			visit = func(v ssa.Value, seen map[ssa.Value]bool) {
+				v = unspill(v)
+				if seen[v] {
+					return
+				}
+				seen[v] = true
+				ph, ok := v.(*ssa.Phi)
+				if !ok {
+					// interning helpers hand back their argument's text
+					if call, ok := v.(*ssa.Call); ok && len(call.Call.Args) > 0 {
+						if g := call.Call.StaticCallee(); g != nil && isTwigFn(g) {
+							visit(call.Call.Args[len(call.Call.Args)-1], seen)
+						}
+					}
+					return
+				}
+				for i, e := range ph.Edges {
+					k, isConst := constString(e)
+					if !isConst {
+						visit(e, seen)
+						continue
+					}
+					// why was this edge taken?  walk up single-predecessor blocks to the test
+					b := ph.Block().Preds[i]
+					child := ph.Block()
+					for steps := 0; steps < 4; steps++ {
+						if cond, trueIdx, ok := ifCond(b); ok {
+							if bo, ok := cond.(*ssa.BinOp); ok && bo.Op == token.EQL && b.Succs[trueIdx] == child {
+								k2, isC := constString(bo.Y)
+								if !isC {
+									k2, isC = constString(bo.X)
+								}
+								if isC {
+									n++
+									construct := fmt.Sprintf("word %q emitted where the source says %q", k, k2)
+									if k2 != k {
+										r.bad("R04.7", ssaName(fn), construct, w.posOf(in.Pos()), fmt.Sprintf("the tokenizer substitutes %q for %q: the parser cannot tell the two spellings apart any more, so wherever the second is inert text (inside a verbatim body, say) the first one's meaning is applied to it", k, k2))
+									} else {
+										r.ok("R04.7", ssaName(fn), construct, w.posOf(in.Pos()), "canonical spelling of the same word", true)
+									}
+								}
+							}
+							break
+						}
+						if len(b.Preds) != 1 {
+							break
+						}
+						child, b = b, b.Preds[0]
+					}
+				}
+			}
+			visit(args[1], map[ssa.Value]bool{})
+		})
+	}
+	r.Counts["constant alternatives of token values selected by a comparison"] = n
 }
